@@ -56,6 +56,19 @@ func (p *Program) LoadConsts() error {
 				byPkg[pp] = append(byPkg[pp], gv{pp, n, true})
 			} else if _, _, isInt := intInfo(v.Type()); isInt {
 				byPkg[pp] = append(byPkg[pp], gv{pp, n, false})
+			} else if st, ok := v.Type().Underlying().(*types.Struct); ok && st.NumFields() > 0 && st.NumFields() <= 4 {
+				// small structs of integers (MemoryUsage, ComputationUsage): one entry per field
+				allInt := true
+				for i := 0; i < st.NumFields(); i++ {
+					if _, _, isInt := intInfo(st.Field(i).Type()); !isInt {
+						allInt = false
+					}
+				}
+				if allInt {
+					for i := 0; i < st.NumFields(); i++ {
+						byPkg[pp] = append(byPkg[pp], gv{pp, n + "." + st.Field(i).Name(), false})
+					}
+				}
 			}
 		}
 		if len(byPkg[pp]) > 0 {
